@@ -138,6 +138,12 @@ def battery(s, bits, rng_seed):
     if hasattr(s, 'pos'):
         t('read', lambda: (s.__setattr__('pos', 0) if False else None, s.read(min(3, n)))[1]); t('pos', lambda: s.pos)
     if isinstance(s, bitstring.BitArray):
+        # objects taken from s beforehand must keep their value whatever is done to s afterwards, whatever route s was built by
+        import copy as _copy
+        def edit_copy():
+            c2 = s.copy(); c2.invert(); c2.append('0b1'); c3 = _copy.copy(s); c3.set(1); return [s.bin, len(c2), len(c3)]
+        t('edit_a_copy', edit_copy)
+        kept = [s.copy(), _copy.copy(s), Bits(s), bitstring.ConstBitStream(s), s[:], bitstring.BitArray(s)]
         def m(name, fn):
             def g():
                 r = fn(); return [r, s.bin]
@@ -147,6 +153,8 @@ def battery(s, bits, rng_seed):
         m('del', lambda: s.__delitem__(slice(0, 2))); m('reverse', lambda: s.reverse()); m('rol', lambda: s.rol(3)); m('ror', lambda: s.ror(1, 1))
         m('set', lambda: s.set(1, [0, -1])); m('invert', lambda: s.invert(0)); m('ilshift', lambda: s.__ilshift__(1)); m('imul', lambda: s.__imul__(2))
         m('iand', lambda: s.__iand__(Bits(len(s)))); m('replace', lambda: s.replace('0b1', '0b00', count=2)); m('byteswap', lambda: s.byteswap(1)); m('clear', lambda: s.clear())
+        t('kept_copies', lambda: [k.bin for k in kept])
+
     return out
 
 def run_store(c):
